@@ -1,3 +1,5 @@
+import SJ.Model.PartialEqAp
+import SJ.Spec.PrimEqAp
 import SJ.Drv.Base
 import SJ.Spec.Pointer
 import SJ.Model.ValueOps
@@ -153,12 +155,30 @@ def primTyOfName : String → Option Gen.PrimTy
 def tf (b : Bool) : String := if b then "t" else "f"
 def rep (n : Nat) (s : String) : String := String.join (List.replicate n s)
 
-def peq : Handler := fun args impl =>
-  match args with
-  | [tyName, ce, ve] =>
+/-- executable form of `Spec.NumberAcc.nearestF64` / `nearestF32` for the driver: the guarded
+    `Model.NumberAp.f64OfLit` filtered by `is_finite` (`SJ.Proofs.NumberAp.f64OfLit_eq` + `finite64_round`: equal to
+    `roundNE64` of the exact value for every literal; the guards only avoid expanding 10^huge) -/
+def nearest64 (l : Spec.Decimal.NumLit) : Option UInt64 := Model.NumberAp.finite64 (some (Model.NumberAp.f64OfLit l))
+def nearest32 (l : Spec.Decimal.NumLit) : Option UInt32 := Model.NumberAp.finite32 (some (Model.NumberAp.f32OfLit l))
+
+/-- `Spec.PrimEqAp.holdsF64` / `holdsF32` evaluated through `nearest64` / `nearest32` -/
+def holdsF64Ap (b : UInt64) (v : JV) : Bool :=
+  match Spec.PrimEqAp.litOfValue v with
+  | some l => Spec.PrimEqAp.eqOpt64 (nearest64 l) b
+  | none => false
+def holdsF32Ap (b : UInt32) (v : JV) : Bool :=
+  match Spec.PrimEqAp.litOfValue v with
+  | some l => Spec.PrimEqAp.eqOpt32 (nearest32 l) b
+  | none => false
+
+/-- `peq <ty> <comparand> <value> [<cfg>]`: without the fourth argument the default build
+    (`Model.PartialEq`, `Spec.PrimEq`); with a cfg tag naming `ap` the string-backed numbers
+    (`Model.PartialEqAp`, `Spec.PrimEqAp`) -/
+def peqCfg (ap : Bool) (tyName ce ve impl : String) : Out :=
     match decodeJV ve with
     | none => bad "decode"
     | some v =>
+      if ap && !Spec.PrimEqAp.wfValue v then bad "ap value with a non-literal number" else
       if tyName == "str" then
         match bytesOfHex ce with
         | some s =>
@@ -172,21 +192,29 @@ def peq : Handler := fun args impl =>
       | some ty =>
         let comparand : Option (Model.PartialEq.Comparand × Bool) :=
           match ty with
-          | .f32 => (natOfHexChars ce.toList).map fun n => (.f32 (UInt32.ofNat n), Spec.PrimEq.holdsF32 (UInt32.ofNat n) v)
-          | .f64 => (natOfHexChars ce.toList).map fun n => (.f64 (UInt64.ofNat n), Spec.PrimEq.holdsF64 (UInt64.ofNat n) v)
+          | .f32 => (natOfHexChars ce.toList).map fun n => (.f32 (UInt32.ofNat n),
+              if ap then holdsF32Ap (UInt32.ofNat n) v else Spec.PrimEq.holdsF32 (UInt32.ofNat n) v)
+          | .f64 => (natOfHexChars ce.toList).map fun n => (.f64 (UInt64.ofNat n),
+              if ap then holdsF64Ap (UInt64.ofNat n) v else Spec.PrimEq.holdsF64 (UInt64.ofNat n) v)
           | .bool => if ce == "t" then some (.bool true, Spec.PrimEq.holdsBool true v)
                      else if ce == "f" then some (.bool false, Spec.PrimEq.holdsBool false v) else none
           | _ => (intOfDec ce).bind fun x =>
               match Spec.PrimEq.intRange ty with
-              | some (lo, hi) => if lo ≤ x && x ≤ hi then some (.int x, Spec.PrimEq.holdsInt x v) else none
+              | some (lo, hi) => if lo ≤ x && x ≤ hi then
+                  some (.int x, if ap then Spec.PrimEqAp.holdsInt (Spec.PrimEqAp.signedTy ty) x v else Spec.PrimEq.holdsInt x v) else none
               | none => none
         match comparand with
         | none => bad "comparand"
         | some (c, holds) =>
           let want := rep 4 (tf holds)
-          { model := rep 4 (tf (Model.PartialEq.eqPrim ty c v)),
+          { model := rep 4 (tf (Model.PartialEqAp.eqPrimCfg ap ty c v)),
             spec := if want == impl then none else
-              some s!"C18 PartialEq<{tyName}>: true exactly when the value holds that value: {want}" }
+              some s!"C18 PartialEq<{tyName}>{if ap then " (arbitrary_precision)" else ""}: true exactly when the value holds that value: {want}" }
+
+def peq : Handler := fun args impl =>
+  match args with
+  | [tyName, ce, ve] => peqCfg false tyName ce ve impl
+  | [tyName, ce, ve, cfg] => peqCfg ((cfg.splitOn "+").contains "ap") tyName ce ve impl
   | _ => bad "arity"
 
 /-! ## json! -/
